@@ -21,7 +21,7 @@ RULE = ('per configuration: BFS over call-event sequences to the depth bound, de
         'and parameter values after re-parsing it on a reset gin) and replayed. non-trivial = sequence length >= 2.')
 ASSUMPTIONS = ['OperativeModel restates the rule: defaults (representable, allowed) + applicable bindings - caller '
                'supplied names, most recent value wins', 'probe bodies record arguments only']
-WITNESSES = ['param_from_earlier_call_kept', 'caller_supplied_omitted', 'scoped_section', 'macro_as_definition',
+WITNESSES = ['operative_after_failed_macro_call', 'param_from_earlier_call_kept', 'caller_supplied_omitted', 'scoped_section', 'macro_as_definition',
              'constant_omitted', 'denylisted_default_omitted', 'nonrepresentable_omitted', 'method_section',
              'replay_same_records', 'replay_same_text', 'uncalled_absent', 'evaluated_ref_section', 'rebound_between_calls']
 
@@ -473,8 +473,57 @@ class World:
       do_event(e)
 
 
+# ---------------------------------------------------------------------------------- failed calls (unbound macro)
+# What a call that failed records is not prescribed; that the operative text stays obtainable and parseable, and
+# that later successful calls are still listed, is.
+FAILED_MACRO = {
+    'unbound_macro_param': ("c07.g.t = %c07undefined\n", ['g()']),
+    'unbound_macro_in_list': ("c07.g.t = [1, %c07undefined]\n", ['g()']),
+    'unbound_macro_then_other_calls': ("c07.g.t = %c07undefined\nc07.f.a = 'A'\n", ['g()', 'f()', 'g()']),
+    'unbound_macro_via_reference': ("c07.g.t = %c07undefined\nc07.consumer.p = @c07.g()\n", ['consumer()', 'f(b=2)']),
+    'unbound_scoped_macro': ("c07.g.t = %sc/c07undefined\n", ['s:f()', 'g()']),
+}
+
+
+def run_failed_macro(name, res):
+  text, events = FAILED_MACRO[name]
+  art = {'special': 'failed_macro', 'name': name}
+  harness.hard_reset()
+  del REC[:]
+  gin.constant('c07.CONST', CONST)
+  gin.parse_config(text)
+  res.case(('failed_macro', name), True)
+  outs = [do_event(e) for e in events]
+  res.outcome('failed_macro:' + ','.join(outs))
+  try:
+    op_text = gin.operative_config_str()
+  except Exception as e:  # pylint: disable=broad-except
+    res.violation('operative_raises_after_failed_call', '%s: config %r, calls %r (outcomes %r): operative_config_str() '
+                  'raised %r' % (name, text, events, outs, e), art)
+    return
+  ok_calls = [EVENTS[e][0] for e, o in zip(events, outs) if o == 'ok']
+  secs = [sel for _, sel in sections_of(op_text)]
+  lost = [c for c in ok_calls if c not in secs]
+  if lost:
+    res.violation('sections', '%s: successful calls %r are not listed after a failed call:\n%s' % (name, lost, op_text), art)
+    return
+  harness.hard_reset()
+  gin.constant('c07.CONST', CONST)
+  try:
+    gin.parse_config(op_text)
+  except Exception as e:  # pylint: disable=broad-except
+    res.violation('operative_unparseable', '%s: operative text after a failed call does not parse (%r):\n%s' %
+                  (name, e, op_text), art)
+    return
+  if 'ok' not in outs or any(o != 'ok' for o in outs):
+    res.w('operative_after_failed_macro_call')
+
+
 def run(ctx):
   res = core.Result()
+  for name in FAILED_MACRO:
+    run_failed_macro(name, res)
+  harness.hard_reset()
   mod = __import__('checks.c07', fromlist=['x'])
   evs = EVENTS_Q if ctx.quick else list(EVENTS) + list(REBIND)
   depth = 4 if ctx.quick else 5
@@ -492,6 +541,11 @@ def run(ctx):
 
 
 def replay(obj):
+  if obj.get('special') == 'failed_macro':
+    res = core.Result()
+    run_failed_macro(obj['name'], res)
+    harness.hard_reset()
+    return res
   World.CNAME = obj['config']
   World.EVS = list(EVENTS) + list(REBIND)
   mod = __import__('checks.c07', fromlist=['x'])
